@@ -416,3 +416,78 @@ def boxes_halfgrid(lo, hi, rng=None, limit=None, min_size=1):
 def element_complexity(kind, el):
     c = coords_of(kind, el)
     return len(c) // 2
+
+
+# ---------------------------------------------------------------------------------------
+# unconstrained "soup" elements: any structure, any representable coordinate values
+# (used where values are read, not computed with: bounds, selection laws, round trips)
+# ---------------------------------------------------------------------------------------
+def rand_coord(rng, subtype, special_p=0.1):
+    dt = np.dtype(subtype)
+    if dt.kind == "f":
+        r = rng.random()
+        if r < special_p:
+            return [float("nan"), float("inf"), float("-inf")][int(rng.integers(3))]
+        if r < 0.5:
+            v = float(rng.integers(-20, 21))
+        elif r < 0.8:
+            v = float(rng.uniform(-1000, 1000))
+        elif r < 0.9:
+            v = float(rng.uniform(-1, 1) * 1e-30)
+        else:
+            v = float(rng.uniform(-1, 1) * 1e30)
+        return float(np.array(v, dtype=dt))
+    info = np.iinfo(dt)
+    lim = min(info.max, 2 ** 50)
+    r = rng.random()
+    if r < 0.6:
+        return int(rng.integers(-20, 21))
+    if r < 0.9:
+        return int(rng.integers(-min(lim, 10 ** 6), min(lim, 10 ** 6)))
+    return int([lim, -lim, lim - 1][int(rng.integers(3))])
+
+
+def rand_flat(rng, subtype, nmin=0, nmax=6, special_p=0.1):
+    k = int(rng.integers(nmin, nmax + 1))
+    return [rand_coord(rng, subtype, special_p) for _ in range(2 * k)]
+
+
+def soup_element(rng, kind, subtype, special_p=0.1, empty_p=0.12, missing_p=0.12):
+    """Any element of *kind*: missing, empty in any form, or arbitrary coordinates."""
+    r = rng.random()
+    if r < missing_p:
+        return None
+    if kind == "point":
+        if np.dtype(subtype).kind == "f" and rng.random() < empty_p:
+            return [float("nan"), float("nan")]
+        return [rand_coord(rng, subtype, special_p), rand_coord(rng, subtype, special_p)]
+    if r < missing_p + empty_p:
+        forms = empty_elements(kind)
+        return forms[int(rng.integers(len(forms)))]
+    if kind in ("multipoint", "line", "ring"):
+        return rand_flat(rng, subtype, 1, 6, special_p)
+    if kind in ("multiline", "polygon"):
+        return [rand_flat(rng, subtype, 0, 5, special_p) for _ in range(int(rng.integers(1, 4)))]
+    if kind == "multipolygon":
+        return [[rand_flat(rng, subtype, 0, 5, special_p) for _ in range(int(rng.integers(1, 3)))]
+                for _ in range(int(rng.integers(1, 4)))]
+    raise ValueError(kind)
+
+
+def is_inert(kind, el):
+    """Missing, or without any finite coordinate."""
+    if el is None:
+        return True
+    return not any(v is not None and math.isfinite(v) for v in coords_of(kind, el))
+
+
+def same_value(a, b):
+    """Deep equality of element values with NaN == NaN."""
+    if a is None or b is None:
+        return a is None and b is None
+    if isinstance(a, (list, tuple)):
+        return (isinstance(b, (list, tuple)) and len(a) == len(b)
+                and all(same_value(x, y) for x, y in zip(a, b)))
+    if isinstance(a, float) and a != a:
+        return isinstance(b, float) and b != b
+    return a == b
